@@ -492,4 +492,4 @@ class RadialProfile(ProfileBase):
         """
         The raw data profile as a 1D `~numpy.ndarray`.
         """
-        return self._data_profile[1]
+        return self._data_profile[1] / self.normalization_value
